@@ -101,14 +101,19 @@ def run(chk):
             dis += 1
             chk.obligation("suite:checksums:section[%d]" % dis, False, "impl %s vs model %s on %r" % (core.canon(r)[:200], core.canon(m)[:200], c["entries"]))
         hexlen = {32: "md5", 40: "sha1", 64: "sha256"}
-        bad_entry = any((":" not in v and len(v) not in hexlen) or v.count(":") > 1 or p.startswith("/") for p, v in c["entries"])
+        def root00(p):
+            # pre-productmd files carried absolute keys: relative to the tree root, which ends at the FIRST "/os/"
+            if c.get("legacy00") and p.startswith("/"):
+                return p[p.find("/os/") + 4:] if "/os/" in p else p.lstrip("/")
+            return p
+        bad_entry = any((":" not in v and len(v) not in hexlen) or v.count(":") > 1 or (p.startswith("/") and not c.get("legacy00")) for p, v in c["entries"])
         if ok_i:
             if bad_entry:
                 chk.violation("a [checksums] section with an untypable/absolute entry was accepted: %r -> %r" % (c["entries"], r[1][0]["checksums"]),
                               c, "checksums:section", "D7-checksum-carried-over")
             for p, v in c["entries"]:
                 want = v.split(":") if ":" in v else [hexlen.get(len(v)), v]
-                if r[1][0]["checksums"].get(p) != want and not bad_entry:
+                if r[1][0]["checksums"].get(root00(p)) != want and not bad_entry:
                     chk.violation("path %r was given %r in the file but carries %r" % (p, v, r[1][0]["checksums"].get(p)), c, "checksums:section")
         elif not bad_entry:
             chk.violation("a well-formed [checksums] section was rejected: %r -> %r" % (c["entries"], r), c, "checksums:section")
